@@ -121,6 +121,7 @@ func (t *tracer) grouped() (ids []int, per map[int][][2]int, total int) {
 }
 
 type runResult struct {
+	Results  []string // the chunk's return values (tostring), at most 12
 	Err      string
 	Panicked string
 	Insts    int
@@ -152,9 +153,14 @@ func runTraced(fp *lua.FunctionProto, root *P, budget int, setup func(L *lua.LSt
 			}
 			done <- r
 		}()
+		base := L.GetTop()
 		L.Push(L.NewFunctionFromProto(fp))
 		if err := L.PCall(0, lua.MultRet, nil); err != nil {
 			r.Err = trunc(err.Error(), 300)
+		} else {
+			for i := base + 1; i <= L.GetTop() && i <= base+12; i++ {
+				r.Results = append(r.Results, trunc(L.Get(i).String(), 40))
+			}
 		}
 	}()
 	limit := 20 * time.Second
